@@ -76,4 +76,71 @@ example : (crun demoCfg (answeredEvs.take 26)).cu.s.inp = [(0, 1)] ∧
     (crun demoCfg (answeredEvs.take 26)).cu.isPaused = false ∧
     (crun demoCfg answeredEvs).cu.s.applied = [0] := by decide
 
+/-- **The response is named with the record's CURRENT request ID** — why the aliasing of the request
+    object is harmless for liveness. In every composed run: when a tick of the ROB builds the response
+    to its request number `n`, which the connection took from the compute unit as a request of record
+    `r.1`, and that record is still listed by the compute unit (in flight or saved) as `e`, then the
+    name under which `back` will hand the response over is `(e.id, e.gen)` — the ID `answer_is_applied`
+    needs — even if the copy the ROB served was sent under an older generation (a copy that survived a
+    flush in the compute unit's port). -/
+theorem response_named_with_current_generation (c : Cfg) (evs : List CEv) (d : TRsp) (r : C14.Flush.Req)
+    (e : C14.Flush.Entry)
+    (hd : d ∈ (crun c (evs ++ [.rob .tick])).sys.rob.delivered.drop (crun c evs).sys.rob.delivered.length)
+    (hid : (crun c evs).idOf[d.rspTo]? = some r)
+    (he : e ∈ (crun c evs).cu.s.inf ++ (crun c evs).cu.s.sh) (hr : e.id = r.1) :
+    nameOf (crun c (evs ++ [.rob .tick])) d.rspTo = some (e.id, e.gen) := by
+  have hrun : crun c (evs ++ [.rob .tick]) = cstep c (crun c evs) (.rob .tick) := by
+    simp [crun, List.foldl_append]
+  rw [hrun] at hd ⊢
+  generalize hσ : crun c evs = σ at hd hid he ⊢
+  have hcov : σ.named.map (·.1) = σ.sys.rob.delivered.map (·.rspTo) := by rw [← hσ]; exact names_cover c evs
+  have hok : σ.sys.Ok c.rob := by rw [← hσ]; exact (crun_Covered c evs).1
+  have hids : (C14.Flush.ids (σ.cu.s.inf ++ σ.cu.s.sh)).Nodup := by
+    have := (crun_IdsOK c evs).2.1.1
+    rw [hσ] at this
+    exact (List.nodup_append.1 this).2.1
+  -- the state after the tick
+  have hsys : (cstep c σ (.rob .tick)).sys = sysStep c.rob σ.sys .tick := rfl
+  have hnamed : (cstep c σ (.rob .tick)).named = σ.named ++ nameRsps σ (sysStep c.rob σ.sys .tick) := rfl
+  obtain ⟨more, hmore⟩ := sysStep_delivered_ext c.rob σ.sys .tick hok
+  rw [hsys, hmore, List.drop_left] at hd
+  -- delivered ids never repeat
+  have hnd : ((sysStep c.rob σ.sys .tick).rob.delivered.map (·.rspTo)).Nodup := by
+    have h1 : (cstep c σ (.rob .tick)).sys = sysRun c.rob (robEvs c {} (evs ++ [.rob .tick])) := by
+      rw [← hσ, ← hrun]; exact comp_rob_is_sysRun c _
+    have := (sys_order_once_capacity c.rob (robEvs c {} (evs ++ [.rob .tick]))).2.2.1
+    rw [← h1, hsys] at this
+    exact (List.nodup_append.1 this).1
+  have hnot : ∀ x ∈ σ.named, ¬ (x.1 == d.rspTo) = true := by
+    intro x hx hxe
+    have hx1 : x.1 ∈ σ.sys.rob.delivered.map (·.rspTo) := by rw [← hcov]; exact List.mem_map_of_mem hx
+    rw [hmore, List.map_append] at hnd
+    have := (List.nodup_append.1 hnd).2.2 x.1 hx1 d.rspTo (List.mem_map_of_mem hd)
+    exact this (by simpa using hxe)
+  unfold nameOf
+  rw [hnamed, List.find?_append, List.find?_eq_none.2 hnot, Option.none_or]
+  rw [nameRsps_eq, hmore, List.drop_left]
+  rcases hf : (more.map fun d' => (d'.rspTo, nameFn σ d'.rspTo)).find? (fun x => x.1 == d.rspTo) with _ | x
+  · exfalso
+    have := List.find?_eq_none.1 hf (d.rspTo, nameFn σ d.rspTo) (List.mem_map.2 ⟨d, hd, rfl⟩)
+    exact this (beq_self_eq_true _)
+  · have hx1 := List.find?_some hf
+    obtain ⟨d', _, hx⟩ := List.mem_map.1 (List.mem_of_find?_eq_some hf)
+    have hdd : d'.rspTo = d.rspTo := by rw [← hx] at hx1; simpa using hx1
+    rw [hf]
+    show some x.2 = some (e.id, e.gen)
+    rw [← hx]
+    simp only [hdd]
+    unfold nameFn
+    rw [hid]
+    simp only
+    rw [← hr, curGen_of_mem σ.cu.s hids e he]
+
+/-- `answeredEvs`: the ROB retires its request 1 (the re-sent copy of record 0, sent as (0, 1)) at the
+    tick with index 24; record 0 is in flight under generation 1 -/
+example : (crun demoCfg (answeredEvs.take 25)).sys.rob.delivered.map (·.rspTo) = [1] ∧
+    (crun demoCfg (answeredEvs.take 24)).sys.rob.delivered = [] ∧
+    (crun demoCfg (answeredEvs.take 24)).idOf[1]? = some (0, 1) ∧
+    nameOf (crun demoCfg (answeredEvs.take 25)) 1 = some (0, 1) := by decide
+
 end C15.Cu
